@@ -286,6 +286,9 @@ def _worker(job):
 
 def run(tier, seed, t0):
     jobs = (SCEN_QUICK if tier == "quick" else [j[:3] for j in SCEN_QUICK]) + (SCEN_THOROUGH if tier == "thorough" else [])
+    only = os.environ.get("VERIF_C05_ONLY")          # development aid: run the named scenarios only
+    if only:
+        jobs = [j for j in [x[:3] for x in SCEN_QUICK] + SCEN_THOROUGH if j[1] in only.split(",")]
     # the MIR is dumped once, before the workers start (they re-use the dump of this run)
     _e3.program(["metrics-util"])
     obs, mods, funcs = [], set(), set()
